@@ -10,7 +10,7 @@ func extractStages() {
 	s := newSection("Stages")
 	// ---------------- preprocess
 	const pf = "internal/pkg/preprocessor/preprocessor.go"
-	pre := fn(pf, "preprocess")
+	pre := canonFn(pf, "preprocess")
 	ps := strings.ReplaceAll(src(pre), " ", "")
 	s.boolean("preWorksAtMaxDepth", strings.Contains(ps, "operatingDepth:=seed.GetMaxDepth()") && strings.Contains(ps, "seed.GetNodesAtLevel(operatingDepth)"))
 	s.boolean("prePanicsOnNonFresh", strings.Contains(ps, "ifitems[i].GetStatus()!=models.ItemFresh{dumper.PanicWithDump("))
@@ -91,7 +91,7 @@ func extractStages() {
 
 	// ---------------- postprocess
 	const itf = "internal/pkg/postprocessor/item.go"
-	pi := fn(itf, "postprocessItem")
+	pi := canonFn(itf, "postprocessItem")
 	is := strings.ReplaceAll(src(pi), " ", "")
 	var redir []int
 	for _, n := range allNodes(fn("internal/pkg/postprocessor/utils.go", "isStatusCodeRedirect")) {
@@ -157,9 +157,9 @@ func extractStages() {
 	s.boolean("assetGuardShape", strings.Contains(sa, "return!config.Get().DisableAssetsCapture&&item.GetURL().GetBody()!=nil"))
 
 	// ---------------- finisher
-	fw := strings.ReplaceAll(src(fn("internal/pkg/finisher/finisher.go", "finisher.worker")), " ", "")
+	fw := strings.ReplaceAll(src(canonFn("internal/pkg/finisher/finisher.go", "finisher.worker")), " ", "")
 	iFresh := strings.Index(fw, "ifseed.GetStatus()==models.ItemFresh{")
-	iComp := strings.Index(fw, "isComplete:=seed.CompleteAndCheck()")
+	iComp := strings.Index(fw, "if!seed.CompleteAndCheck(){")
 	iFb := strings.Index(fw, "reactor.ReceiveFeedback(seed)")
 	iFin := strings.Index(fw, "reactor.MarkAsFinished(seed)")
 	s.boolean("finisherDecisionOrder", iFresh >= 0 && iFresh < iComp && iComp < iFb && iFb < iFin)
